@@ -43,7 +43,14 @@ def pressure_function_rules(chk, sol):
     args = {}
     for p, cn in zip(solve["params"][:6], canon):
         args[p["n"]] = sym_for(cn)
-    (leaf,) = se.run(fake, args=args)
+    pleaves = [l for l in se.run(fake, args=args) if not l.aborted]
+    if len(pleaves) > 1:
+        # conditional expressions on the vacuum flags fork the set-up code: the Newton iteration is only entered for
+        # the generic case, in which every degenerate test (vacuum on a side) is false
+        pleaves = [l for l in pleaves if all(pol is False for _, pol, _ in l.conds)]
+    if len(pleaves) != 1:
+        raise AnalysisBroken("set-up code of solve(): %d generic paths" % len(pleaves))
+    leaf = pleaves[0]
     Ps = sym_for("Pstar")
     calls = [x for x in C.walk_stmt(solve["body"]) if C.is_call(x) and x.get("fn") in (E + "f", E + "fprime")]
     fcalls = [c for c in calls if c["fn"] == E + "f"]
